@@ -554,6 +554,8 @@ pub fn push_cfgchange(exps: &mut Vec<Exp>, depth: usize) {
         v(Some(3_000), Some(7_000), None),
         v(None, None, Some(0)),
         v(None, None, Some(50_000)),
+        Act::VammConfig { by: "owner".into(), v: 0, toll: None, spread: None, fluct: None, twap: Some(600) },
+        Act::VammConfig { by: "owner".into(), v: 0, toll: None, spread: None, fluct: None, twap: Some(3 * 3600) },
     ]);
     let seeds = vec![vec![], seed_liquidatable(), seed_slightly_under(), seed_funded(), seed_band_liquidatable()];
     for cw20 in [true, false] {
@@ -1607,6 +1609,23 @@ pub fn run_c11(tier: Tier) -> i32 {
                 }
             }
         }
+    }
+    // a vAMM instantiated with a one-day funding period (the period cannot be changed later): time steps around half
+    // a day and a day
+    {
+        let mut al = StdAlpha::basic(&T2);
+        al.sizes = vec![SIZE_M];
+        al.blocks = vec![15, 43_200, 86_399, 86_400, 90_000];
+        al.prices = vec![8 * D, 12_500_000];
+        al.liquidators = vec![];
+        al.deposit = None;
+        let mut c = cfg_with(true, false, 0);
+        c.funding_period = 86_400;
+        let seeds = vec![
+            vec![],
+            vec![Act::open("alice", true, SIZE_M.0, SIZE_M.1), Act::open("bob", false, SIZE_S.0, SIZE_S.1), Act::Px { price: 8 * D }, Act::blk(90_000)],
+        ];
+        exps.push(Exp::new("funding, one-day period", c, al.acts(), seeds, tier.pick(3, 4)));
     }
     push_sweep(&mut exps, tier.pick(2, 3));
     push_dust(&mut exps, true, tier.pick(3, 4));
